@@ -55,7 +55,12 @@ def expectations(bin_name):
 def build_all():
     """warm build of the dependencies and of every positive probe (setup time)"""
     prepare()
-    return _sh(["cargo", "build", "--offline", "--quiet", "--bins", "--keep-going"], PROBES)
+    rc, log = _sh(["cargo", "build", "--offline", "--quiet", "--keep-going"] +
+                  sum([["--bin", b] for b in all_bins() if b.startswith("p_")], []), PROBES)
+    for b in all_bins():
+        if b.startswith("f0_"):
+            _sh(["cargo", "build", "--offline", "--quiet", "--no-default-features", "--bin", b], PROBES)
+    return rc, log
 
 
 def run(prop, workdir):
@@ -68,8 +73,9 @@ def run(prop, workdir):
         exe = os.path.join(PROBES, "target", "debug", b)
         if os.path.exists(exe):
             os.remove(exe)          # never run a stale binary
-        rc, log = _sh(["cargo", "build", "--offline", "--quiet", "--bin", b], PROBES)
-        if b.startswith("n_"):
+        feat = ["--no-default-features"] if b.startswith(("f0_", "nf0_")) else []
+        rc, log = _sh(["cargo", "build", "--offline", "--quiet", "--bin", b] + feat, PROBES)
+        if b.startswith(("n_", "nf0_")):
             exp = expectations(b)
             if rc == 0:
                 failures.append((b, "negative probe compiles: the misuse / privacy violation it contains is no longer rejected", src))
@@ -98,6 +104,42 @@ def run(prop, workdir):
             first = next((l for l in p.stdout.splitlines() if "FAIL" in l), "exit %d" % p.returncode)
             failures.append((b, "probe fails when run: " + first[:240], src))
     return failures, cov
+
+
+def expand_twice(bins, workdir):
+    """C20, rustc side: macro-expand the given probe programs with the real compiler
+    (`rustc -Zunpretty=expanded`, nightly) in two separate compiler processes — fresh proc-macro
+    server, fresh hash seeds, different job count and environment — and compare the expansions.
+    Returns (differences, info)."""
+    prepare()
+    diffs, info = [], {"programs": [], "toolchain": "nightly (-Zunpretty=expanded)"}
+    for b in bins:
+        outs = []
+        for k, (jobs, noise) in enumerate([("16", "a"), ("1", "bbbbbbbb")]):
+            src = os.path.join(PROBES, "src", "bin", b + ".rs")
+            os.utime(src, None)      # make cargo re-run rustc
+            e = dict(os.environ)
+            e.update({"CARGO_NET_OFFLINE": "true", "CARGO_TARGET_DIR": os.path.join(PROBES, "target", "expand"),
+                      "ENTRAIT_NOISE": noise * (k + 1), "RUST_MIN_STACK": str((8 + k) << 20)})
+            pr = subprocess.run(["cargo", "+nightly", "rustc", "--offline", "--quiet", "-j", jobs, "--bin", b, "--",
+                                 "-Zunpretty=expanded"], cwd=PROBES, env=e, stdout=subprocess.PIPE,
+                                stderr=subprocess.PIPE, text=True, timeout=1800)
+            if pr.returncode != 0 or not pr.stdout.strip():
+                info["programs"].append({"bin": b, "skipped": "expansion unavailable: " + pr.stderr[-200:]})
+                outs = None
+                break
+            outs.append(pr.stdout)
+        if outs is None:
+            continue
+        info["programs"].append({"bin": b, "expanded_lines": outs[0].count("\n"), "identical": outs[0] == outs[1]})
+        if outs[0] != outs[1]:
+            pa = os.path.join(workdir, b + ".expand_a.rs")
+            pb = os.path.join(workdir, b + ".expand_b.rs")
+            open(pa, "w").write(outs[0])
+            open(pb, "w").write(outs[1])
+            diffs.append((b, "rustc's expansion of %s differs between two compiler processes (%s vs %s)" % (b, pa, pb),
+                          os.path.join(PROBES, "src", "bin", b + ".rs")))
+    return diffs, info
 
 
 if __name__ == "__main__":
